@@ -73,8 +73,25 @@ type story struct {
 	pendAt  map[int]int64 // material -> virtual time it was first published (guess)
 	v       int64
 	revoked map[int]bool
-	extras  []extra // other RRsets to splice into the answer section of the next run
-	alive   bool    // a process exists (the last run completed, no restart since)
+	extras  []extra  // other RRsets to splice into the answer section of the next run
+	alive   bool     // a process exists (the last run completed, no restart since)
+	timed   []string // time-bounded RRSIGs (ts= entries) for the next run
+}
+
+// window returns "<notBefore>/<notAfter>" (seconds relative to now): inside the window, expired
+// (an hour, a day, ten days ago; windows of a day to two months) or not yet valid.
+func (st *story) window(kind int) string {
+	r := st.r
+	switch kind {
+	case 0: // valid
+		return fmt.Sprintf("%d/%d", -vlib.Pick(r, []int64{300, day, 30 * day}), vlib.Pick(r, []int64{300, hour, 30 * day}))
+	case 1: // expired
+		after := -vlib.Pick(r, []int64{300, hour, day, 10 * day})
+		return fmt.Sprintf("%d/%d", after-vlib.Pick(r, []int64{day, 30 * day, 60 * day}), after)
+	default: // not yet valid
+		nb := vlib.Pick(r, []int64{300, hour, day})
+		return fmt.Sprintf("%d/%d", nb, nb+vlib.Pick(r, []int64{day, 30 * day}))
+	}
 }
 
 func (st *story) op(format string, a ...any) {
@@ -183,6 +200,10 @@ func (st *story) run(set, signers []kref, bad []string, faults, crash string) {
 	if len(st.extras) > 0 {
 		line += " x=" + fmtExtras(st.extras)
 		st.extras = nil
+	}
+	if len(st.timed) > 0 {
+		line += " ts=" + strings.Join(st.timed, ",")
+		st.timed = nil
 	}
 	st.alive = crash == "-"
 	st.emit(line)
@@ -339,7 +360,20 @@ func (st *story) honest(faultP, crashP int) {
 	if r.Chance(1, 9) {
 		st.extras = st.rideAlong(signers)
 	}
-	if len(st.extras) == 0 && killBudget > 0 && crashP > 0 && r.Chance(1, 12) {
+	if r.Chance(1, 6) && len(signers) > 0 {
+		// the same signers, but their RRSIGs carry explicit validity windows: all inside (a
+		// genuine set), or all outside (a replayed or premature one)
+		kind := vlib.Pick(r, []int{0, 0, 1, 1, 1, 2})
+		for _, k := range signers {
+			st.timed = append(st.timed, k.String()+"/"+st.window(kind))
+		}
+		if kind != 0 && r.Chance(1, 3) {
+			// ... except one that is still good
+			st.timed[0] = signers[0].String() + "/" + st.window(0)
+		}
+		signers = nil
+	}
+	if len(st.extras) == 0 && len(st.timed) == 0 && killBudget > 0 && crashP > 0 && r.Chance(1, 12) {
 		killBudget--
 		st.op("autota killrun %s %s %d", joinRefs(st.served()), joinRefs(shuffled(r, signers)), r.Intn(2))
 		return
